@@ -80,7 +80,7 @@ def write_replay(pid, fam, lines, model_out, impl_out, oracle_out, note):
                 f.write(f"#   impl : {io}\n")
             if mo is not None and mo != io:
                 f.write(f"#   model: {mo}\n")
-            if oo is not None and oo != "pass":
+            if oo is not None and oo not in ("pass", "#"):
                 f.write(f"#   oracle: {oo}\n")
     return path
 
@@ -237,7 +237,7 @@ def _run_scripts(prop, tier, seed, rng, replay, problems, ev, cov, names, discha
             ofail = None
             if oo[k] is not None:
                 for i, o in enumerate(oo[k]):
-                    if o != "pass":
+                    if o != "pass" and o != "#":
                         ofail = (i, o)
                         break
             if ofail:
@@ -350,7 +350,7 @@ def shrink(model_bin, impl_bin, fam, lines, mode, sig=None):
             return core.first_diff(m0, i0) is not None
         if o0 is None:
             return False
-        return any(o != "pass" and (sig is None or sig in o) for o in o0)
+        return any(o not in ("pass", "#") and (sig is None or sig in o) for o in o0)
 
     try:
         small = core.ddmin(lines, pred, keep_prefix=fam.header, budget=120) if len(lines) > fam.header + 1 else lines
